@@ -11,6 +11,21 @@ CHECKS = {
    text="Every sequence of register writes up to depth 2 (quick) / 3 (thorough) over all canonical names, documented aliases, extra accepted spellings and unknown names x 3 values, from two start states, for all 9 context types; in each reached state every accessor (trait and MinidumpContext dispatch, validity-set classes) is compared with a map-based reference. Complete within the bound; states/transitions reported.",
    note="Trusted: the alias tables transcribed from the documentation; values limited to 3 per write; the reference model (a BTreeMap).",
    design_ref="3/C18"),
+ "C01": dict(level="fault_enumeration", engine="E1",
+   technique="exhaustive one-/two-deviation field corruption, every truncation and fan-in shapes of 54 synthetic (+7 corpus) seed dumps through the full consumer driver, in sandboxed workers with panic / hang / allocation monitors",
+   text="Every even offset x width {2,4,8} x boundary-value menu (0, 1, len-1, len, len+1, 2^31, 2^32-1, own offset, enclosing stream start, every directory rva and rva+size) of 27 synthetic seeds (LE and BE; together containing all 24 stream types, all 9 CPU contexts, handle chains, crashpad links, misc info 1-5, mac crash info, Linux text streams), every prefix length, all strings of length <= 3 as stream contents, and fan-in shapes (k entries sharing one child of size s, k,s in {1,8,64,512}) are run through a driver that does everything a consumer can do (read, all streams, all prints, lookups at range boundaries +-1, contexts, crash reason over OS x CPU, module accessors, text-stream iterators); thorough adds the corpus files and two deviations on structural words. Each case runs in a monitored child: panic site, hang (10 s, confirmed by a solo re-run), hard heap cap (512 MiB) and a per-operation allocation budget 64 KiB + 64*len + len^2/4.",
+   note="Trusted: the seed set and value menu, budget constants, the worker monitors. Small-scope: inputs >= 3 coordinated corruptions away from any seed are not reached. F12 F13 F14 F15 and F22 (new) were found by this check and repaired; F16 (crashpad fan-in) is a known finding.",
+   design_ref="3/C01"),
+ "C09": dict(level="fault_enumeration", engine="E1+E3",
+   technique="exhaustive short-string / field-deviation / line-sequence / long-line enumeration through the real parser with window, dropped-line-equality and heap-bound oracles, plus the scaled-buffer build for the growth/recovery machine",
+   text="All byte strings of length <= 3 (alone and after a MODULE line), 15 record templates x 0/1/2 fields from a 12-token boundary menu x 4 terminators, all sequences of <= 3 [thorough 5] lines over 30 record shapes, every single-byte replacement/deletion of a valid file, real-constant long lines around every buffer threshold (10..160 KiB +-1 and over MAX) x kinds x prefixes x suffixes x LF/CRLF x read chunkings, each parsed by the real SymbolFile::parse through a counting reader (bytes read but not yet handed to the callback <= MAX at every read; a file whose only defect is one over-long line parses Ok and equals the file without it) in monitored workers; and, in the scaled build (hook H1), every single line length 17..700, all pairs/triples/quadruples over threshold menus x LF/CRLF x final newline or not under 11 reader schedules (lines <= MAX/2 kept, lines > MAX dropped with the parse Ok, no panic/hang).",
+   note="Trusted: the counting reader, the reference 'file without the line', the documented fuzzy 80-160 KiB zone, the scaling hook. Outcomes are not compared across chunkings (that is C10).",
+   design_ref="3/C09"),
+ "C13": dict(level="model_checking", engine="E2",
+   technique="stateless exhaustive exploration of all supplier completion orders / poll interleavings of the real process_minidump future under a controlled scheduler; all delay vectors; labelled sampling for hash seeds",
+   text="The single real process_minidump future (threads walked concurrently through join_all) is driven by the hand-rolled scheduler: for every generated input (3 threads x 3 modules, each module requested by two threads; plain / 16-row proc limits / alias-colliding CFI rules / missing+corrupt symbols / amd64 register rules), 1..2 [thorough 3] supplier suspensions per lookup and spurious-poll budget 0..1, EVERY IO completion order and poll interleaving is executed and text, brief, JSON and pretty JSON must equal the zero-delay run byte for byte; plus every delay vector in {0,1,2}^n under a poll-to-completion executor. Hash seeds cannot be enumerated: 32 [128] repeated in-process runs and a free-running 4-thread tokio runtime are labelled sampling (exhaustive: false for that half).",
+   note="Trusted: poll bodies atomic under the explorer; the sampled half only adds evidence. F9 (proc_limits order) and F10 (alias CFI rules in hash order) were found by this check and repaired.",
+   design_ref="3/C13"),
  "C02": dict(level="exploration", engine="E1",
    technique="bounded-exhaustive model -> serialise -> parse round trip (4 variants: LE/BE x MemoryList/Memory64List) against the model and independently re-derived identifiers",
    text="Every model of nine finite product spaces (module/CodeView menus, thread layouts for 9 CPUs, memory placements incl. top of address space, system/misc/exception menus, list lengths 0..40, stream presence, duplicate directory entries) is serialised through minidump-synth in both byte orders and both memory-list formats, parsed by the real library and compared with the model field by field, by address lookup of every region byte, with independently re-derived debug/code ids and versions, and across the four parses. Complete enumeration of the stated products, no sampling.",
